@@ -7,7 +7,11 @@ mod c04;
 mod c05;
 mod c06;
 mod c07;
+mod c11;
+mod c14;
+mod c14m;
 mod c15;
+mod tlslab;
 mod redir;
 mod common;
 mod e1;
@@ -38,6 +42,7 @@ fn main() {
         // worker subprocesses of checks that isolate cases in processes
         let code = match id {
             "C05" => c05::worker(&args[3..]),
+            "C11" => c11::worker(&args[3..]),
             _ => 2,
         };
         std::process::exit(code);
@@ -87,6 +92,8 @@ const CHECKS: &[(&str, CheckFn)] = &[
     ("C07", c07::c07),
     ("C09", redir::c09),
     ("C10", redir::c10),
+    ("C11", c11::c11),
+    ("C14", c14m::c14),
     ("C15", c15::c15),
     ("C19", wirechecks::c19),
 ];
@@ -102,5 +109,7 @@ const REPLAYERS: &[(&str, ReplayFn)] = &[
     ("c07", c07::replay),
     ("c09", redir::replay09),
     ("c10", redir::replay10),
+    ("c11", c11::replay),
+    ("c14", c14m::replay),
     ("c15", c15::replay),
 ];
